@@ -2,11 +2,17 @@
 // renew / rekey / revoke requests through the real embedded authority and writes
 // "<model input line>\t<implementation outcome>".
 //
+// The model is run with epc=1: the *specified* behaviour "no certificate with an empty principal is
+// issued" (what sshCertDefaultValidator does once it checks cert.ValidPrincipals). On a tree without
+// that check the corner/generated cases with "" among the token's principals disagree and are reported
+// through the known finding C14-token-empty-principal.
+//
 // Authorities: "both" (user and host SSH signer, bbolt database, SSHPOP provisioner),
 // "bothnodb", "none" (no SSH signer), "user" (user signer only), "host" (host signer only), and
 // "fed": both signers plus `ssh.keys` holding a *federated* host key and a *federated* user key
 // (keys of other SSH CAs) and a non-federated old host key (a former key of this CA).
-// Provisioners on each: jwk (fixture default), x5c, oidc (loopback discovery; admin = adminEmail).
+// Provisioners on each: jwk (fixture default), x5c, oidc (loopback discovery; admin = adminEmail),
+// neb (Nebula: tokens signed with the key of a host certificate of a local Nebula CA).
 package main
 
 import (
@@ -27,14 +33,16 @@ import (
 	"errors"
 	"flag"
 	"fmt"
+	"net"
 	"net/http"
 	"net/http/httptest"
 	"os"
-	"reflect"
+	"sort"
 	"strconv"
 	"strings"
 	"time"
 
+	nebula "github.com/slackhq/nebula/cert"
 	"go.step.sm/crypto/jose"
 	"go.step.sm/crypto/minica"
 	"go.step.sm/crypto/randutil"
@@ -58,7 +66,8 @@ type Opts struct {
 type Case struct {
 	Op   string // sign | renew | rekey | revoke
 	CA   string // both | none | user | host
-	Prov string // jwk | x5c | oidc      (sign)
+	Prov string // jwk | x5c | oidc | nebula      (sign)
+	NebHost int // nebula: which host certificate signs the token
 	Sub  string
 	// sign
 	NoSSH  bool // token without step.ssh
@@ -77,6 +86,7 @@ type Case struct {
 	SubSer  bool // sub = certificate serial
 	Revoked bool
 	DisRen  bool // use the provisioner with disableRenewal
+	Perms   string // both | crit | ext | none | empty   permissions of the presented certificate
 }
 
 const (
@@ -109,6 +119,57 @@ type env struct {
 	keys     map[string]crypto.Signer
 	dsaPub   ssh.PublicKey
 	serial   uint64
+	nebHosts []nebHost
+}
+
+type nebHost struct {
+	crt *nebula.NebulaCertificate
+	key *ecdsa.PrivateKey
+	ips []string
+}
+
+var nebSpecs = []struct {
+	name string
+	ips  []string
+}{
+	{"host-a.neb", []string{"10.1.1.7/16"}},
+	{"Host-B.neb", []string{"10.1.1.8/16", "10.1.2.8/16"}},
+	{"10.1.1.9", []string{"10.1.1.9/16"}},
+}
+
+func newNebula() (pemCA []byte, hosts []nebHost) {
+	caKey := must(ecdsa.GenerateKey(elliptic.P256(), rand.Reader))
+	caECDH := must(caKey.ECDH())
+	_, caNet, _ := net.ParseCIDR("10.1.0.0/16")
+	nca := &nebula.NebulaCertificate{Details: nebula.NebulaCertificateDetails{Name: "VerifNebulaCA", Ips: []*net.IPNet{caNet}, Subnets: []*net.IPNet{},
+		NotBefore: time.Now().Add(-time.Minute), NotAfter: time.Now().Add(20 * time.Hour), PublicKey: caECDH.PublicKey().Bytes(), IsCA: true, Curve: nebula.Curve_P256}}
+	if err := nca.Sign(nebula.Curve_P256, caECDH.Bytes()); err != nil {
+		panic(err)
+	}
+	pemCA = must(nca.MarshalToPEM())
+	for _, sp := range nebSpecs {
+		hk := must(ecdsa.GenerateKey(elliptic.P256(), rand.Reader))
+		he := must(hk.ECDH())
+		h := nebHost{key: hk}
+		var nets []*net.IPNet
+		for _, cidr := range sp.ips {
+			ip, ipn, err := net.ParseCIDR(cidr)
+			if err != nil {
+				panic(err)
+			}
+			ipn.IP = ip.To4()
+			nets = append(nets, ipn)
+			h.ips = append(h.ips, ipn.IP.String())
+		}
+		h.crt = &nebula.NebulaCertificate{Details: nebula.NebulaCertificateDetails{Name: sp.name, Ips: nets, Subnets: []*net.IPNet{}, Groups: []string{"g"},
+			NotBefore: time.Now().Add(-time.Minute).Truncate(time.Second), NotAfter: time.Now().Add(19 * time.Hour), PublicKey: he.PublicKey().Bytes(),
+			Issuer: must(nca.Sha256Sum()), InvertedGroups: map[string]struct{}{"g": {}}, Curve: nebula.Curve_P256}}
+		if err := h.crt.Sign(nebula.Curve_P256, caECDH.Bytes()); err != nil {
+			panic(err)
+		}
+		hosts = append(hosts, h)
+	}
+	return
 }
 
 func newEnv() (*env, error) {
@@ -133,6 +194,8 @@ func newEnv() (*env, error) {
 		NotBefore: time.Now().Add(-time.Hour), NotAfter: time.Now().Add(20 * time.Hour)}))
 	roots := pem.EncodeToMemory(&pem.Block{Type: "CERTIFICATE", Bytes: e.x5cRoot.Root.Raw})
 	tr := true
+	pemNeb, hosts := newNebula()
+	e.nebHosts = hosts
 	mkProvs := func(name string, pop bool) provisioner.List {
 		o := &provisioner.OIDC{Type: "OIDC", Name: "oidc", ClientID: oidcClient,
 			ConfigurationEndpoint: e.srv.URL + "/.well-known/openid-configuration", Admins: []string{adminEmail},
@@ -141,6 +204,7 @@ func newEnv() (*env, error) {
 		l := provisioner.List{
 			&provisioner.X5C{Type: "X5C", Name: "x5c", Roots: roots, Claims: &provisioner.Claims{EnableSSHCA: &tr}},
 			o,
+			&provisioner.Nebula{Type: "Nebula", Name: "neb", Roots: pemNeb, Claims: &provisioner.Claims{EnableSSHCA: &tr}},
 		}
 		if pop {
 			l = append(l,
@@ -295,7 +359,25 @@ func (e *env) runSign(k *Case) (line, impl string, ok bool) {
 	var tok string
 	var err error
 	mprov, oem, ousr := k.Prov, "x", "-"
+	nbn, nbi, tpip := "x", "-", "-"
 	switch k.Prov {
+	case "nebula":
+		if k.NebHost < 0 || k.NebHost >= len(e.nebHosts) {
+			return "", "", false
+		}
+		h := e.nebHosts[k.NebHost]
+		claims["iss"], claims["aud"] = "neb", fixture.Audience("/1.0/ssh/sign")+"#nebula/neb"
+		tok, err = signJWT(h.key, "ES256", map[string]any{string(provisioner.NebulaCertHeader): must(h.crt.Marshal())}, claims)
+		nbn, nbi = c.X(h.crt.Details.Name), xlist(h.ips)
+		var pi []string
+		for _, p := range k.Tok.Principals {
+			if ip := net.ParseIP(p); ip != nil {
+				pi = append(pi, c.X(ip.String()))
+			} else {
+				pi = append(pi, "!")
+			}
+		}
+		tpip = c.List(pi)
 	case "jwk":
 		claims["iss"], claims["aud"] = "jwk", fixture.Audience("/1.0/ssh/sign")
 		tok, err = signJWT(ca.JWK.Key, ca.JWK.Algorithm, map[string]any{"kid": ca.JWK.KeyID}, claims)
@@ -326,9 +408,9 @@ func (e *env) runSign(k *Case) (line, impl string, ok bool) {
 	}
 	pub, keyClass := e.pubKey(k.Key)
 	cau, cah := caBits(k.CA)
-	line = fmt.Sprintf("op=sign prov=%s cau=%s cah=%s dbe=%s sub=%s ssh=%s tct=%s tkid=%s tpr=%s oem=%s ousr=%s rct=%s rkid=%s rpr=%s key=%s case=x%s",
+	line = fmt.Sprintf("op=sign prov=%s cau=%s cah=%s dbe=%s epc=1 sub=%s ssh=%s tct=%s tkid=%s tpr=%s oem=%s ousr=%s nbn=%s nbi=%s tpip=%s rct=%s rkid=%s rpr=%s key=%s case=x%s",
 		mprov, cau, cah, c.B(ca.DB != nil), c.X(k.Sub), c.B(!k.NoSSH && k.Prov != "oidc"), c.X(k.Tok.CertType), c.X(k.Tok.KeyID), xlist(k.Tok.Principals),
-		oem, ousr, c.X(k.Req.CertType), c.X(k.Req.KeyID), xlist(k.Req.Principals), keyClass,
+		oem, ousr, nbn, nbi, tpip, c.X(k.Req.CertType), c.X(k.Req.KeyID), xlist(k.Req.Principals), keyClass,
 		hex.EncodeToString(must(json.Marshal(k))))
 	impl = func() (out string) {
 		defer func() {
@@ -358,7 +440,38 @@ func (e *env) runSign(k *Case) (line, impl string, ok bool) {
 
 // ---------- SSH-POP ----------
 
-var permsUser = ssh.Permissions{Extensions: map[string]string{"permit-pty": "", "permit-user-rc": ""}, CriticalOptions: map[string]string{"source-address": "10.0.0.0/8"}}
+// permissions of the presented certificate: critical options only (typical host certificate),
+// extensions only, both, neither (nil maps), or empty non-nil maps
+func permsOf(kind string) ssh.Permissions {
+	crit := map[string]string{"source-address": "10.0.0.0/8", "force-command": "/usr/bin/backup"}
+	ext := map[string]string{"permit-pty": "", "permit-user-rc": "", "custom@example.com": "v"}
+	switch kind {
+	case "crit":
+		return ssh.Permissions{CriticalOptions: crit}
+	case "ext":
+		return ssh.Permissions{Extensions: ext}
+	case "none":
+		return ssh.Permissions{}
+	case "empty":
+		return ssh.Permissions{CriticalOptions: map[string]string{}, Extensions: map[string]string{}}
+	default:
+		return ssh.Permissions{CriticalOptions: crit, Extensions: ext}
+	}
+}
+
+// kvList renders a map as sorted x<key>:x<value> items (nil and empty maps alike: "-")
+func kvList(m map[string]string) string {
+	keys := make([]string, 0, len(m))
+	for k := range m {
+		keys = append(keys, k)
+	}
+	sort.Strings(keys)
+	out := make([]string, len(keys))
+	for i, k := range keys {
+		out[i] = c.X(k) + ":" + c.X(m[k])
+	}
+	return c.List(out)
+}
 
 func (e *env) runPop(k *Case) (line, impl string, ok bool) {
 	ca := e.cas[k.CA]
@@ -391,7 +504,7 @@ func (e *env) runPop(k *Case) (line, impl string, ok bool) {
 	}
 	e.serial++
 	old := &ssh.Certificate{Key: subjPub, Serial: e.serial, CertType: ct, KeyId: k.Cert.KeyID, ValidPrincipals: k.Cert.Principals,
-		ValidAfter: va, ValidBefore: vb, Permissions: permsUser}
+		ValidAfter: va, ValidBefore: vb, Permissions: permsOf(k.Perms)}
 	var signer ssh.Signer
 	switch k.SignBy {
 	case "host":
@@ -465,8 +578,8 @@ func (e *env) runPop(k *Case) (line, impl string, ok bool) {
 	// federated=true belong to other CAs and do not count.
 	su := cau == "1" && verifies(e.userKey)
 	sh := cah == "1" && (verifies(e.hostKey) || (k.CA == "fed" && verifies(e.oldHost)))
-	line = fmt.Sprintf("op=%s cau=%s cah=%s dbe=%s dren=%s aexp=0 ct=%d kid=%s pr=%s perms=7 su=%s sh=%s ny=%s ex=%s hv=%s tsig=%s tcl=%s taud=%s tsub=%s tser=%s rev=%s key=%s case=x%s",
-		k.Op, cau, cah, c.B(ca.DB != nil), c.B(k.DisRen), ct, c.X(k.Cert.KeyID), xlist(k.Cert.Principals), c.B(su), c.B(sh),
+	line = fmt.Sprintf("op=%s cau=%s cah=%s dbe=%s epc=1 dren=%s aexp=0 ct=%d kid=%s pr=%s pco=%s pex=%s su=%s sh=%s ny=%s ex=%s hv=%s tsig=%s tcl=%s taud=%s tsub=%s tser=%s rev=%s key=%s case=x%s",
+		k.Op, cau, cah, c.B(ca.DB != nil), c.B(k.DisRen), ct, c.X(k.Cert.KeyID), xlist(k.Cert.Principals), kvList(old.CriticalOptions), kvList(old.Extensions), c.B(su), c.B(sh),
 		c.B(k.Window == "future"), c.B(k.Window == "expired"), c.B(va != 0 && vb != 0),
 		c.B(k.TokKey != "other"), c.B(k.Iss != "wrong"), c.B(k.Aud != "wrong"), c.B(!k.NoSub), c.B(k.SubSer && !k.NoSub), c.B(k.Revoked), keyClass,
 		hex.EncodeToString(must(json.Marshal(k))))
@@ -506,11 +619,13 @@ func (e *env) runPop(k *Case) (line, impl string, ok bool) {
 		if string(crt.Key.Marshal()) != string(wantKey.Marshal()) {
 			return "issue wrong-subject-key"
 		}
-		perms := 0
-		if reflect.DeepEqual(crt.Permissions, old.Permissions) {
-			perms = 7
+		// what a client sees: the certificate as it parses from its wire form
+		wire, err := ssh.ParsePublicKey(crt.Marshal())
+		if err != nil {
+			return "issue unparsable"
 		}
-		return fmt.Sprintf("issue %s perms=%d by=%s", certOut(crt), perms, e.signedBy(crt))
+		pc := wire.(*ssh.Certificate)
+		return fmt.Sprintf("issue %s co=%s ex=%s by=%s", certOut(pc), kvList(pc.CriticalOptions), kvList(pc.Extensions), e.signedBy(crt))
 	}()
 	return line, impl, true
 }
